@@ -85,6 +85,9 @@ W = {   # request -> (plc tag, base, elements, value param, expected encoded byt
     "d": ("d", "d", 1, P.int(-2**31, 2**31 - 1), "spec.cip_codec.encode_int('DINT', {v})", "'DINT'"),
     "arr[1]{2}": ("arr[1]", "arr", 2, P.list(P.int(-32768, 32767), 2), "b''.join(spec.cip_codec.encode_int('INT', x) for x in {v})", "'INT[2]'"),
     "s": ("s", "s", 1, P.str(maxcp=0xFF, maxlen=100), "spec.logix.logix_string_bytes(82, {v})", "'STRING'"),
+    # one element of an array of strings: the value is one string, not a sequence of characters
+    "sa[1]": ("sa[1]", "sa", 1, P.str(maxcp=0xFF, maxlen=100), "spec.logix.logix_string_bytes(82, {v})", "'STRING'"),
+    "sa[0]{2}": ("sa[0]", "sa", 2, P.tuple(P.str(maxcp=0xFF, maxlen=82), P.const("'xy'")), "b''.join(spec.logix.logix_string_bytes(82, x) for x in {v})", "'STRING[2]'"),
 }
 WINVALID = {"nope": "1", "arr[0]{3}": "[1, 2]", "d ": "2**40"}     # unknown tag, too few values, out of range value
 
@@ -137,6 +140,8 @@ def _write_contract(cid, reqs):
 
 _write_contract("write.one.d", ["d"])
 _write_contract("write.one.string", ["s"])
+_write_contract("write.string_array.element", ["sa[1]"])
+_write_contract("write.string_array.slice", ["sa[0]{2}"])
 _write_contract("write.two", ["d", "arr[1]{2}"])
 _write_contract("write.mixed", ["d", "nope", "arr[0]{3}", "d"])
 _write_contract("write.all_invalid", ["nope", "d "])
@@ -251,4 +256,16 @@ contract(
                   "head + spec.logix.sub_reply(0x4e, st2)])", "d._sock = t"],
     ensures=["len(result) == 3", "[r.tag for r in result] == ['d.0', 'arr[1].0', 'd']", "result[0].type == 'BOOL' and result[1].type == 'BOOL' and result[2].type == 'DINT'",
              "bool(result[0]) == (st1 == 0) and bool(result[1]) == (st2 == 0) and bool(result[2]) == (st0 == 0)", "len(t.sent) == 3"],
+    props=["C03", "C02"], max_paths=20000)
+
+# a plain write first, bit writes after it: the bit-write group must not take the place of request 0
+contract(
+    id="write.plain_then_bits", func=LD + ".write", call="d.write(('d', v), ('arr[1].2', b1), ('d.5', b2))",
+    params={"use_ids": P.bool(), "head": P.bytes(len=46), "b1": P.bool(), "b2": P.bool(), "v": P.int(-2**31, 2**31 - 1), "st0": ST, "st1": ST, "st2": ST},
+    requires=["spec.encap.le(head, 8, 4) == 0"],
+    setup=CONN + ["t = spec.env.Transport([spec.logix.multi_reply(head, [spec.logix.sub_reply(0x4d, st0)]), head + spec.logix.sub_reply(0x4e, st1), "
+                  "head + spec.logix.sub_reply(0x4e, st2)])", "d._sock = t"],
+    ensures=["len(result) == 3", "[r.tag for r in result] == ['d', 'arr[1].2', 'd.5']",
+             "bool(result[0]) == (st0 == 0) and bool(result[1]) == (st1 == 0) and bool(result[2]) == (st2 == 0)", "len(t.sent) == 3",
+             "result[0].value == v if st0 == 0 else True"],
     props=["C03", "C02"], max_paths=20000)
